@@ -178,5 +178,65 @@ fn main() {
                 });
         }
     }
+    // ================= audit: the 38th entry point ts_vregx_all (returned only, triples) ============
+    // part=prefix with series of EQUAL and UNEQUAL length (second longer: both bodies; second shorter: iterator body), every cut;
+    // part=window: two histories, same tails (C06_prefix_two_series_entry / C06_window_only_two_series_entry)
+    let all3 = |be: u8, xs: &[f64], ys: &[f64], w: usize, mp: Option<usize>| -> Vec<Cell> {
+        let (xv, yv) = (xs.to_vec(), ys.to_vec());
+        let r = if be == 1 {
+            let dq: VecDeque<f64> = vh::wrapped_deque(&xv);
+            let dy: VecDeque<f64> = vh::wrapped_deque(&yv);
+            guarded(std::panic::AssertUnwindSafe(|| { let r: Vec<(f64, f64, f64)> = dq.ts_vregx_all(&dy, w, mp); r }))
+        } else {
+            guarded(std::panic::AssertUnwindSafe(|| { let r: Vec<(f64, f64, f64)> = xv.ts_vregx_all(&yv, w, mp); r }))
+        };
+        match r { Ok(v) => { let f: Vec<f64> = v.iter().flat_map(|t| [t.0, t.1, t.2]).collect(); f64_cells(&f) }, Err(k) => vec![Cell::Panic(k)] }
+    };
+    for si in 0..(if thorough { 60 } else { 16 }) {
+        let len = rng.range(2, 10) as usize;
+        let len2 = match si % 3 { 0 => len, 1 => len + 1 + si % 2, _ => len.saturating_sub(1) };
+        // three series in four (almost) null-free with a strictly varying regressor: otherwise every triple is null
+        let dense = |rng: &mut Rng, v: Vec<f64>, reg: bool, on: bool| -> Vec<f64> { if !on { return v; }
+            v.iter().enumerate().map(|(i, x)| if reg { if i % 7 == 6 { *x } else { (i as i64 * 3 + rng.range(0, 2)) as f64 / 4.0 } }
+                                              else if x.is_nan() && i % 5 != 4 { rng.range(-12, 12) as f64 / 4.0 } else { *x }).collect() };
+        let xs = { let v = series(&mut rng, len, true); dense(&mut rng, v, false, si % 4 != 0) };
+        let ys = { let v = series(&mut rng, len2, true); dense(&mut rng, v, true, si % 4 != 0) };
+        let w = rng.range(1, len as i64 + 2) as usize;
+        let mp = Some(rng.range(0, w as i64) as usize);
+        for be in [0u8, 1u8] {
+            if be == 0 && len2 < len { continue; }   // the index body rejects a shorter second series (C04 / C05 cover it)
+            let whole = all3(be, &xs, &ys, w, mp);
+            let n = len.min(len2);
+            for k in 0..=n {
+                let (px, py) = (&xs[..k], &ys[..k.min(len2)]);
+                let term = format!("(run_two_ff 4 {} {} {} {} {})", vh::coq_bool(be == 0), vh::coq_nat(w), coq_opt(&mp, |m| vh::coq_nat(*m)),
+                    coq_series(px, "f"), coq_series(py, "f"));
+                em.case("custom:prefixm", &format!("part=prefix fn=ts_vregx_all be={} len={} lens={} cut={} mp=explicit style=audit{}", ["vec", "deque"][be as usize], len,
+                        if len2 == len { "equal" } else if len2 < len { "second_shorter" } else { "second_longer" }, if k == n { "all" } else if k == 0 { "0" } else { "mid" }, if k == 0 { " nt=0" } else { "" }),
+                    &format!("prefix fn=ts_vregx_all be={} w={} mp={:?} cut={} xs={:?} ys={:?}", ["vec", "deque"][be as usize], w, mp, k, xs, ys),
+                    || term, || join(all3(be, px, py, w, mp), take(whole.clone(), 3 * k)));
+            }
+        }
+        // window part: the same tails after two different histories
+        let h = rng.range(1, 8) as usize;
+        let (ha, hb) = (series(&mut rng, h, si % 2 == 0), series(&mut rng, h, true).iter().map(|x| x * 8.0 + 3.0).collect::<Vec<f64>>());
+        let (hya, hyb) = (series(&mut rng, h, true), series(&mut rng, h, true));
+        let tl = len.max(2);
+        let (tx, ty) = ({ let v = series(&mut rng, tl, true); dense(&mut rng, v, false, si % 4 != 0) }, { let v = series(&mut rng, tl, true); dense(&mut rng, v, true, si % 4 != 0) });
+        let ww = rng.range(1, tl as i64) as usize;
+        let mpw = Some(rng.range(0, ww as i64) as usize);
+        let cat = |a: &Vec<f64>, b: &Vec<f64>| -> Vec<f64> { a.iter().chain(b.iter()).cloned().collect() };
+        let (xa, xb, ya, yb) = (cat(&ha, &tx), cat(&hb, &tx), cat(&hya, &ty), cat(&hyb, &ty));
+        let first = h + ww - 1;
+        let scale = 4.0 * (h + tl) as f64 * max_abs(&hb, max_abs(&ha, 10.0));
+        let be = (si % 2) as u8;
+        em.case(&format!("custom:window:1e-7,{}", scale * scale), &format!("part=window fn=ts_vregx_all be={} h={} w={} exact=false style=audit", ["vec", "deque"][be as usize], h.min(12), ww.min(10)),
+            &format!("window fn=ts_vregx_all be={} w={} mp={:?} historyA={:?} historyB={:?} tail={:?} | second series A={:?} B={:?} tail={:?}", ["vec", "deque"][be as usize], ww, mpw, ha, hb, tx, hya, hyb, ty),
+            || "(@nil Z)".to_string(),
+            || {
+                let tail_of = |c: Vec<Cell>| -> Vec<Cell> { if has_panic(&c) { c } else { c.into_iter().skip(3 * first).collect() } };
+                join(tail_of(all3(be, &xa, &ya, ww, mpw)), tail_of(all3(be, &xb, &yb, ww, mpw)))
+            });
+    }
     em.finish();
 }
